@@ -79,6 +79,12 @@ def _cat_tensor_data(td_list: list[TD], dim: int) -> TD:
         elif isinstance(td, MultiNestedTensor):
             return MultiNestedTensor.cat(td_list, dim=dim)
         elif isinstance(td, dict):
+            for td_dict in td_list[1:]:
+                if td_dict.keys() != td.keys():
+                    raise RuntimeError(
+                        "The dictionaries to be concatenated must have the "
+                        f"same keys, got {list(td_dict.keys())} and "
+                        f"{list(td.keys())}.")
             result = {}
             for name in td.keys():
                 result[name] = MultiNestedTensor.cat(
